@@ -139,6 +139,11 @@ def need(cond, what):
         raise AnalysisError(f"anchor: {what}")
 
 
+def _clone(node):
+    """Parent-free copy of an expression node (loaded trees carry _parent pointers, which deepcopy would follow to the module)."""
+    return ast.parse(ast.unparse(node), mode="eval").body
+
+
 _SINGLE = {}
 
 
@@ -178,8 +183,7 @@ class _Inline(ast.NodeTransformer):
         if isinstance(node.ctx, ast.Load) and self.depth < 5:
             d = _single_defs(self.fn).get(node.id)
             if d is not None:
-                import copy
-                return _Inline(self.fn, self.depth + 1).visit(copy.deepcopy(d))
+                return _Inline(self.fn, self.depth + 1).visit(_clone(d))
         return node
 
 
@@ -188,8 +192,7 @@ def resolve_local(fn, node):
     `x0 = self.initial_state; f(x0)` reads as `f(self.initial_state)`).  Used by rules that compare argument expressions."""
     if fn is None or node is None:
         return node
-    import copy
-    return ast.fix_missing_locations(_Inline(fn, 0).visit(copy.deepcopy(node)))
+    return ast.fix_missing_locations(_Inline(fn, 0).visit(_clone(node)))
 
 
 def arg_text(fn, node):
